@@ -16,6 +16,8 @@
 (*   "postings"  every posting spelling (indent, status, virtual kinds,    *)
 (*               account, gap, cost, assertion, comment, comment lines)    *)
 (*   "pairs"     every ordered pair of entries from a menu of constructs   *)
+(*   "desc-chars" every description of <= 3 characters over 22 character   *)
+(*               classes, after a bare date, a status and a code           *)
 (*   "random"    RandomElement-drawn journals of 1..MaxEntries entries     *)
 (***************************************************************************)
 EXTENDS JournalRand, Json
@@ -60,6 +62,13 @@ FamHeaders(u) ==
           s \in {"", "*", "!"}, c \in 0..Len(Codes), k \in DescKinds, hc \in HComments, g \in {1, 2} }
     \cup { Case("headers-trigger", TriggerDescriptions[k.i].trig, << [BaseTx EXCEPT !.st = s, !.desc = k] >>) :
           s \in {"", "*"}, k \in TrigDescs }
+
+(* every description of <= MaxEntries (at most 3) characters over DescAlphabet, after a bare date, a status and a code *)
+RECURSIVE CSeqs(_, _)
+CSeqs(k, n) == IF n = 0 THEN {<<>>} ELSE LET S == CSeqs(k, n - 1) IN S \cup { Append(x, i) : x \in { y \in S : Len(y) = n - 1 }, i \in 1..k }
+FamDescChars(u) ==
+    { Case("desc-chars", "", << [BaseTx EXCEPT !.st = s, !.code = c, !.desc = [kind |-> "chars", cs |-> cs, i |-> 1, j |-> 1]] >>) :
+          s \in {"", "*"}, c \in {0, 1}, cs \in { x \in CSeqs(Len(DescAlphabet), IF MaxEntries > 3 THEN 3 ELSE MaxEntries) : DescCharsOK(x) } }
 
 PCosts == { <<>>, <<[total |-> FALSE, a |-> Amt(15, 1, 2)]>>, <<[total |-> TRUE, a |-> [Amt(1050, 2, 1) EXCEPT !.side = "L", !.sp = FALSE]]>> }
 PAsrts == { <<>>, <<[strict |-> FALSE, a |-> Amt(100, 0, 4)]>>, <<[strict |-> TRUE, a |-> [Amt(100, 0, 1) EXCEPT !.side = "L", !.sp = FALSE, !.neg = TRUE]]>> }
@@ -139,6 +148,7 @@ FamilySet(u) == CASE Family = "amounts"  -> FamAmounts(0)
                [] Family = "headers"  -> FamHeaders(0)
                [] Family = "postings" -> FamPostings(0)
                [] Family = "pairs"    -> FamPairs(0)
+               [] Family = "desc-chars" -> FamDescChars(0)
                [] OTHER               -> {}
 
 Init == IF Family = "random" THEN cas = <<>> /\ stg = 0 ELSE cas \in FamilySet(0) /\ stg = 1
